@@ -71,42 +71,42 @@ impl Dictionary {
     /// Parses an existing dictionary file.
     pub fn from_existing(buffer: ByteSpan) -> Option<Dictionary> {
         let mut cursor = Cursor::new(buffer);
-        let mut dict = DictionaryHeader::read(&mut cursor).unwrap();
+        let mut dict = DictionaryHeader::read(&mut cursor).ok()?;
 
         let map_start = 0x8750u32;
         let map_size = 0x200u32;
 
         // fix up offsets
         for offset in &mut dict.block_offsets {
-            *offset = *offset + map_start + map_size;
+            *offset = offset.checked_add(map_start + map_size)?;
         }
 
         for i in 0..dict.block_lengths[0] / 2 {
-            let offset = dict.block_offsets[0] + i * 2;
+            let offset = dict.block_offsets[0].checked_add(i * 2)?;
             cursor.seek(SeekFrom::Start(offset as u64)).ok()?;
             dict.begin_node.push(cursor.read_le::<u16>().ok()?);
         }
 
         for i in 0..dict.block_lengths[1] / 2 {
-            let offset = dict.block_offsets[1] + i * 2;
+            let offset = dict.block_offsets[1].checked_add(i * 2)?;
             cursor.seek(SeekFrom::Start(offset as u64)).ok()?;
             dict.inner_node.push(cursor.read_le::<u16>().ok()?);
         }
 
         for i in 0..dict.block_lengths[2] / 2 {
-            let offset = dict.block_offsets[2] + i * 2;
+            let offset = dict.block_offsets[2].checked_add(i * 2)?;
             cursor.seek(SeekFrom::Start(offset as u64)).ok()?;
             dict.chara.push(cursor.read_le::<u16>().ok()?);
         }
 
         for i in 0..dict.block_lengths[3] / 2 {
-            let offset = dict.block_offsets[3] + i * 2;
+            let offset = dict.block_offsets[3].checked_add(i * 2)?;
             cursor.seek(SeekFrom::Start(offset as u64)).ok()?;
             dict.word.push(cursor.read_le::<u16>().ok()?);
         }
 
         for i in 0..dict.block_lengths[4] / 16 {
-            let offset = dict.block_offsets[4] + i * 16;
+            let offset = dict.block_offsets[4].checked_add(i * 16)?;
             cursor.seek(SeekFrom::Start(offset as u64)).ok()?;
             dict.entries.push(cursor.read_le::<EntryItem>().ok()?);
         }
@@ -162,7 +162,9 @@ impl Dictionary {
     }
 
     fn dump_dict_node(&self, vec: &mut Vec<String>, entry_id: i32, prev: String) {
-        let node = &self.header.entries[entry_id as usize];
+        let Some(node) = self.header.entries.get(entry_id as usize) else {
+            return;
+        };
         for i in 0..node.sibling {
             let Some(current) = self.get_string(entry_id, i as i32) else {
                 return;
@@ -173,7 +175,13 @@ impl Dictionary {
                 continue;
             }
 
-            let value = self.header.inner_node[(node.child + i) as usize];
+            let Some(value) = node
+                .child
+                .checked_add(i)
+                .and_then(|x| self.header.inner_node.get(x as usize).copied())
+            else {
+                return;
+            };
             if value == 0 {
                 vec.push(prev.clone() + &current);
                 continue;
@@ -200,7 +208,7 @@ impl Dictionary {
 
         if entry.flag == 0 {
             let pos = (entry.offset / 2) as i32 + sibling_id;
-            if pos as usize > self.header.chara.len() {
+            if pos as usize >= self.header.chara.len() {
                 return None;
             }
 
@@ -218,7 +226,7 @@ impl Dictionary {
             end += 1;
         }
 
-        Some(self.header.word[begin as usize..end as usize].to_vec())
+        Some(self.header.word.get(begin as usize..end as usize)?.to_vec())
     }
 }
 
